@@ -220,6 +220,18 @@ def seeded_for(prop):
     return out
 
 
+def anchor_files(prop):
+    """source files the property is anchored in (properties.jsonl); None if unknown"""
+    try:
+        for l in open(os.path.join(VERIF, "properties.jsonl")):
+            p = json.loads(l)
+            if p["id"] == prop:
+                return set(p.get("anchors", {}).get("files", [])) or None
+    except OSError:
+        pass
+    return None
+
+
 def run(ctx, res, prop, equiv_names=None, max_workers=8):
     """run the controls for `prop`; record the outcome in the evidence (res.controls)"""
     from . import core
@@ -233,8 +245,10 @@ def run(ctx, res, prop, equiv_names=None, max_workers=8):
         for name, file, old, new, props in BREAK:
             if prop in props:
                 jobs.append(("break", ex.submit(_text_control, prop, name, file, old, new)))
+        files = anchor_files(prop)
         for name, file, old, new in EQUIV:
-            if equiv_names is None or name in equiv_names:
+            # only rewrites of code the property is anchored in (src/utils.rs is shared by every parser and writer)
+            if (equiv_names is None or name in equiv_names) and (files is None or file in files or file == "src/utils.rs"):
                 jobs.append(("equiv", ex.submit(_text_control, prop, name, file, old, new)))
         out = {"break": [], "equiv": [], "mismatch": [], "skipped": []}
         for kind, fut in jobs:
